@@ -238,7 +238,7 @@ def run():
 
     for ts, buf in pcap_reader:
         if ts == -1:
-            keylog.extend(keylog_reader.get_keys_from_string(buf.decode('ascii')))  # adds secrets from decryption secret block to keylog
+            keylog.extend(keylog_reader.get_keys_from_string(buf.decode('ascii', errors='replace')))  # adds secrets from decryption secret block to keylog
             continue
 
         ts = float(ts)  # dpkt reads nanosecond-resolution legacy pcap files with Decimal timestamps
